@@ -290,6 +290,24 @@ class Fn:
                         changed = True
         return it
 
+    def _multi_switched(self):
+        """locals that decide more than one switch (only these are worth learning on an edge)"""
+        m = getattr(self, "_multi", None) if False else self.rec.get("_multi")
+        if m is None:
+            cnt = defaultdict(int)
+            for b, blk in enumerate(self.blocks):
+                t = blk["t"]
+                if t["t"] == "switch" and t["o"][0] in ("c", "m") and len(t["o"][1]) == 1:
+                    l = t["o"][1][0]
+                    cnt[l] += 1
+                    d = self.single_def(l)
+                    if d and d[1] != "t" and d[0] == b and d[2].get("k") == "use" and d[2]["o"][0] in ("c", "m") \
+                            and len(d[2]["o"][1]) == 1:
+                        cnt[d[2]["o"][1][0]] += 1
+            m = {l for l, c in cnt.items() if c >= 2}
+            self.rec["_multi"] = m
+        return m
+
     def _transfer(self, b, known, interesting):
         """apply block b's statements to the knowledge map (local -> ('v', discr) | ('c', int))"""
         kn = dict(known)
@@ -338,38 +356,75 @@ class Fn:
         return kn
 
     def _feasible_succs(self, b, kn):
+        """[(succ, knowledge-after-edge)]: prunes switch targets contradicting what is known, and
+        learns the switched value on the edge taken (also for the local a switch temp was copied from)"""
         t = self.blocks[b]["t"]
         if t["t"] == "switch" and t["o"][0] in ("c", "m") and len(t["o"][1]) == 1:
-            v = kn.get(t["o"][1][0])
+            l = t["o"][1][0]
+            v = kn.get(l)
             if v and v[0] == "c":
                 if v[1] in t["vals"]:
-                    return [t["tgts"][t["vals"].index(v[1])]]
-                return [t["tgts"][-1]]
-        return self.normal_succ_map()[b]
+                    return [(t["tgts"][t["vals"].index(v[1])], kn)]
+                return [(t["tgts"][-1], kn)]
+            # unknown: learn on each edge
+            src = [l]
+            d = self.single_def(l)
+            if d and d[1] != "t" and d[0] == b and d[2].get("k") == "use" and d[2]["o"][0] in ("c", "m") \
+                    and len(d[2]["o"][1]) == 1:
+                src.append(d[2]["o"][1][0])
+            src = [x for x in src if x in self._multi_switched()]
+            isbool = self.locals[l] == "bool"
+            out = []
+            for val, tgt in zip(t["vals"], t["tgts"]):
+                k2 = dict(kn)
+                for x in src:
+                    k2[x] = ("c", val)
+                out.append((tgt, k2))
+            k2 = kn
+            if isbool and len(t["vals"]) == 1 and t["vals"][0] in ("0", "1"):
+                k2 = dict(kn)
+                for x in src:
+                    k2[x] = ("c", "1" if t["vals"][0] == "0" else "0")
+            out.append((t["tgts"][-1], k2))
+            return out
+        return [(s_, kn) for s_ in self.normal_succ_map()[b]]
 
-    def path_search(self, start_blocks, avoid, goal, known=None, limit=200000):
-        """like path_avoiding but path-sensitive for enum variants / constants assigned on the path
-        (drop flags, `match variant` correlations).  Returns a block path or None."""
+    def path_search(self, start_blocks, avoid, goal, known=None, limit=300000, via=None):
+        """like path_avoiding but path-sensitive for enum variants / constants assigned on the path and
+        branch outcomes learned on the way (drop flags, `match variant`, `if flag {..} .. if flag {..}`).
+        With `via=b` the search starts at the function entry and the path must first pass block b
+        (knowledge gathered before b is kept; `avoid` and `goal` apply only after b).
+        Returns a block path or None."""
         interesting = self._interesting()
         start_kn = dict(known or {})
         dq = deque()
         prev = {}
-        for s in start_blocks:
-            if s in avoid:
+        if via is not None and not isinstance(via, (list, tuple)):
+            via = [via]
+        nvia = len(via) if via is not None else 0
+        # phase = number of `via` blocks passed so far; avoid/goal apply once all were passed
+        if via is not None:
+            starts = [(0, 0)]
+        else:
+            starts = [(s, 0) for s in start_blocks]
+        for s, ph in starts:
+            if ph >= nvia and s in avoid:
                 continue
-            st = (s, tuple(sorted(start_kn.items())))
+            st = (s, tuple(sorted(start_kn.items())), ph)
             if st not in prev:
                 prev[st] = None
                 dq.append(st)
         n = 0
         while dq:
             st = dq.popleft()
-            b, knt = st
+            b, knt, ph = st
             n += 1
             if n > limit:
                 # give up path sensitivity: fall back to the insensitive (over-approximate) answer
+                if via is not None:
+                    return self.path_avoiding(self.succs(via[-1]), avoid, goal)
                 return self.path_avoiding(start_blocks, avoid, goal)
-            if goal(b):
+            if ph >= nvia and goal(b):
                 path = []
                 cur = st
                 while cur is not None:
@@ -377,10 +432,11 @@ class Fn:
                     cur = prev[cur]
                 return path[::-1]
             kn = self._transfer(b, dict(knt), interesting)
-            for s in self._feasible_succs(b, kn):
-                if s in avoid:
+            ph2 = ph + 1 if (ph < nvia and b == via[ph]) else ph
+            for s, kn2 in self._feasible_succs(b, kn):
+                if ph2 >= nvia and s in avoid:
                     continue
-                ns = (s, tuple(sorted(kn.items())))
+                ns = (s, tuple(sorted(kn2.items())), ph2)
                 if ns not in prev:
                     prev[ns] = st
                     dq.append(ns)
